@@ -93,14 +93,14 @@ package transaction
 //@   requires typeis(context, "*state.CheckState") ==> as(context, "*state.CheckState") != nil && as(context, "*state.CheckState").state != nil && as(context, "*state.CheckState").state.Accounts != nil && as(context, "*state.CheckState").state.Coins != nil && as(context, "*state.CheckState").state.Commission != nil && as(context, "*state.CheckState").state.Accounts.bus != nil
 //@   requires typeis(context, "*state.State") ==> as(context, "*state.State") != nil && as(context, "*state.State").Accounts != nil && as(context, "*state.State").Coins != nil && as(context, "*state.State").Commission != nil && as(context, "*state.State").Accounts.bus != nil && as(context, "*state.State").Coins.bus != nil
 //@   requires nowrap: nonce(accs, snd) < 18446744073709551615
-//@   ensures chain: result.Code == 0 ==> tx.ChainID == types.CurrentChainID
-//@   ensures inorder: result.Code == 0 ==> tx.Nonce == old(nonce(accs, snd)) + 1
-//@   ensures advanced: result.Code == 0 && deliver ==> nonce(accs, snd) == tx.Nonce
-//@   ensures checkmode: !deliver ==> bal == old(bal) && nonce == old(nonce) && coinVolume == old(coinVolume) && coinReserve == old(coinReserve) && swapAbs == old(swapAbs) && otherState == old(otherState) && rewardPool.val == old(rewardPool.val)
+//@   ensures [C04] chain: result.Code == 0 ==> tx.ChainID == types.CurrentChainID
+//@   ensures [C04] inorder: result.Code == 0 ==> tx.Nonce == old(nonce(accs, snd)) + 1
+//@   ensures [C04,C03] advanced: result.Code == 0 && deliver ==> nonce(accs, snd) == tx.Nonce
+//@   ensures [C03] checkmode: !deliver ==> bal == old(bal) && nonce == old(nonce) && coinVolume == old(coinVolume) && coinReserve == old(coinReserve) && swapAbs == old(swapAbs) && otherState == old(otherState) && rewardPool.val == old(rewardPool.val)
 //@   let lateFailure = deliver && (tx.Type == TypeCreateCoin || tx.Type == TypeCreateToken) && nonce(accs, snd) == tx.Nonce
-//@   ensures failednonce: result.Code != 0 ==> (nonce == old(nonce) && otherState == old(otherState)) || lateFailure
+//@   ensures [C03,C04] failednonce: result.Code != 0 ==> (nonce == old(nonce) && otherState == old(otherState)) || lateFailure
 //@   let cc = commissionCoinOf(tx)
-//@   ensures failedbalances: result.Code != 0 ==> select(bal, accs) == store(select(old(bal), accs), cc, select(select(bal, accs), cc)) || lateFailure
+//@   ensures [C03] failedbalances: result.Code != 0 ==> select(bal, accs) == store(select(old(bal), accs), cc, select(select(bal, accs), cc)) || lateFailure
 //@   loop 1 invariant frame: nonce == old(nonce) && otherState == old(otherState) && select(bal, accs) == store(select(old(bal), accs), cc, select(select(bal, accs), cc))
 //@   loop 1 invariant payer: bal(accs, cc, intruder) >= balance.val
-//@   ensures chargedonce: deliver && bal != old(bal) ==> nonce(accs, snd) == tx.Nonce
+//@   ensures [C26] chargedonce: deliver && bal != old(bal) ==> nonce(accs, snd) == tx.Nonce
